@@ -462,7 +462,8 @@ func apiSpecs() []*HarnessSpec {
 		},
 		Note: "L2: NewIter/ScanFrom/ScanFromTo on Complete tries with symbolic start/end, inclusivities and withValue symbolic; the t-th yield must be the t-th retained key in range with its encoded value; exhaustion persists. n=2 key bytes range over a 6-letter nibble-diverse alphabet (the scan code forks per label bit)"})
 	out = append(out, &HarnessSpec{Name: "l3_api", Pkg: "trie", Property: "C04", Witness: 1,
-		Quick: []Grid{{"skel": {0, 1, 2, 3, 7}, "opt": {9}, "enc": {1}, "runs": {0, 2}, "check": {4}, "lq": {1, 2}, "api": {0}, "le": {1}, "stop": {0}},
+		Quick: []Grid{{"skel": {0, 1, 2, 3}, "opt": {9}, "enc": {1}, "runs": {0, 2}, "check": {4}, "lq": {1, 2}, "api": {0}, "le": {1}, "stop": {0}},
+			{"skel": {7}, "opt": {9}, "enc": {1}, "runs": {0, 2}, "check": {4}, "lq": {1}, "api": {0}, "le": {1}, "stop": {0}}, // (two symbolic start bytes on the 512-bit skeleton: minutes per item, thorough tier)
 			{"skel": {100, 102, 104, 106, 108, 310}, "opt": {9}, "enc": {1}, "runs": {0, 3}, "check": {4}, "lq": {1}, "api": {0}, "le": {1}, "stop": {0}}, // larger sweeps / aligned sets: thorough (minutes per item)
 			{"skel": {0}, "opt": {9}, "enc": {2}, "runs": {0}, "check": {4}, "lq": {1}, "api": {0, 2}, "le": {2}, "stop": {0}},
 			{"skel": {12, 13, 14, 23, 24, 25}, "opt": {9}, "enc": {1}, "runs": {0}, "check": {4}, "lq": {1}, "api": {0}, "le": {1}, "stop": {0}},
